@@ -180,23 +180,32 @@ fn run_scripted(cfg: &Config, steps: Vec<Step>) -> Option<Run> {
 
 /// 2xx reply followed by a live TLS session.
 fn run_bridged(cfg: &Config, reply: Vec<u8>, bytewise: bool, cert: &'static str) -> Option<Run> {
-    let handle: Arc<Mutex<Option<std::thread::JoinHandle<ServerResult>>>> = Arc::new(Mutex::new(None));
-    let h2 = handle.clone();
-    let world = World::install(move |_, idx, trace| {
-        if idx > 0 {
-            return Answer::Fail(std::io::ErrorKind::ConnectionRefused);
+    for attempt in 0..2 {
+        let handle: Arc<Mutex<Option<std::thread::JoinHandle<ServerResult>>>> = Arc::new(Mutex::new(None));
+        let h2 = handle.clone();
+        let reply2 = reply.clone();
+        let world = World::install(move |_, idx, trace| {
+            if idx > 0 {
+                return Answer::Fail(std::io::ErrorKind::ConnectionRefused);
+            }
+            let (bridge, h) = Bridge::new(reply2.clone(), bytewise, ServerSpec { cert, response: OK_RESPONSE.to_vec() }, trace.clone());
+            *h2.lock().unwrap() = Some(h);
+            Answer::Custom(Box::new(bridge))
+        });
+        let result = cfg.builder().send().map(|r| r.status().as_u16());
+        let server = handle.lock().unwrap().take().map(|h| h.join().expect("tls server thread"));
+        if world.dial_count() == 0 {
+            return None;
         }
-        let (bridge, h) = Bridge::new(reply.clone(), bytewise, ServerSpec { cert, response: OK_RESPONSE.to_vec() }, trace.clone());
-        *h2.lock().unwrap() = Some(h);
-        Answer::Custom(Box::new(bridge))
-    });
-    let result = cfg.builder().send().map(|r| r.status().as_u16());
-    let server = handle.lock().unwrap().take().map(|h| h.join().expect("tls server thread"));
-    if world.dial_count() == 0 {
-        return None;
+        // (a transport failure that both ends of the bridge saw is what starvation on an overloaded
+        //  machine looks like: run once more - a defect of the library reproduces)
+        if attempt == 0 && result.as_ref().err().map_or(false, |e| crate::bridge::starved(&format!("{e:?}"), server.as_ref())) {
+            continue;
+        }
+        let d = world.dial(0);
+        return Some(Run { result, trace: d.trace(), server, dial: d.req });
     }
-    let d = world.dial(0);
-    Some(Run { result, trace: d.trace(), server, dial: d.req })
+    None
 }
 
 fn judge_common(ctx: &mut Ctx, cfg: &Config, run: &Run, descr: &dyn Fn(&str) -> String) -> Option<usize> {
